@@ -931,13 +931,23 @@ def emit_inst(st):
 
 
 HEADER = """From Coq Require Import ZArith NArith String List Bool. Import ListNotations.
-From TP Require Import Check.C11chk.
+From TP Require Import Check.C11chk Check.C11heapchk.
 Local Open Scope string_scope.
 """
 
 P_FUNCS = ("p_eq_mismatch", "p_str_mismatch", "p_hash_mismatch", "p_predicted_incoherent", "p_canonical",
            "p_spec_fail_canonical", "p_dom")
-C_FUNCS = ("c_mismatch", "c_predicted_lossy")
+C_FUNCS = ("c_mismatch_gen", "c_predicted_lossy")     # pickle: under the __getstate__ policy read from the source
+
+
+def eval_retry(shards, tag, header):
+    """core.eval_cases; a shard whose coqc died without a Coq error (killed by the OOM killer / timeout of an
+    overloaded machine) is evaluated once more on its own."""
+    res = core.eval_cases(shards, tag, header)
+    for i, (rc, so, se) in enumerate(res):
+        if rc != 0 and "Error" not in (so + se):
+            res[i] = core.eval_cases([shards[i]], tag + "r%d" % i, header)[0]
+    return res
 
 
 def evaluate(groups, ctx, tag="c11"):
@@ -979,7 +989,7 @@ def evaluate(groups, ctx, tag="c11"):
         for fn in C_FUNCS:
             body.append("Eval vm_compute in (indices_where %s ccases 0)." % fn)
         texts.append(("\n".join(body) + "\n", pl, cl))
-    res = core.eval_cases([t for t, _, _ in texts], tag, HEADER)
+    res = eval_retry([t for t, _, _ in texts], tag, HEADER)
     pout = {fn: [] for fn in P_FUNCS}
     cout = {fn: [] for fn in C_FUNCS}
     pflat, cflat = [], []
@@ -1121,8 +1131,10 @@ def evaluate_heaps(hcases, tag="c11h"):
             body.append("Eval vm_compute in (indices_where %s hcases 0)." % fn)
         shards.append("\n".join(body) + "\n")
     shards.append("Eval vm_compute in policy_readable.\nEval vm_compute in policy_is_safe.\n"
-                  "Eval vm_compute in policy_unsafe_types.\nEval vm_compute in copy_sites.\n")
-    res = core.eval_cases(shards, tag, HEADER_H)
+                  "Eval vm_compute in policy_unsafe_types.\nEval vm_compute in copy_sites.\n"
+                  "Eval vm_compute in state_policy_is_safe.\nEval vm_compute in state_sites.\n"
+                  "Eval vm_compute in copy_is_dict_update.\n")
+    res = eval_retry(shards, tag, HEADER_H)
     out = {fn: [] for fn in H_FUNCS}
     for si, (rc, so, se) in enumerate(res[:-1]):
         vals = core.parse_eval(so)
@@ -1132,11 +1144,12 @@ def evaluate_heaps(hcases, tag="c11h"):
             out[fn] += [si * 250 + i for i in core.parse_nat_list(v)]
     rc, so, se = res[-1]
     vals = core.parse_eval(so)
-    if rc != 0 or len(vals) != 4:
+    if rc != 0 or len(vals) != 7:
         raise RuntimeError("policy facts failed to evaluate: %s" % (so + se)[-1500:])
     pol = {"readable": vals[0].strip() == "true", "safe": vals[1].strip() == "true",
            "unsafe_types": [t for t in vals[2].replace("[", " ").replace("]", " ").replace(";", " ").split() if t.startswith("T")],
-           "policy": vals[3]}
+           "policy": vals[3], "state_safe": vals[4].strip() == "true", "state_policy": vals[5],
+           "copy_dict_update": vals[6].strip() == "true"}
     return out, pol
 
 
@@ -1158,6 +1171,14 @@ def graph_obligations(rep, hcases):
     rep.obligation("tables:copy-policy-readable", pol["readable"], pol["policy"][:250])
     rep.obligation("tables:copy-policy-safe", pol["safe"],
                    "re-used types that can hold mutable objects: %s" % (pol["unsafe_types"] or "none"))
+    rep.obligation("tables:getstate-policy-keeps-every-stored-field", pol["state_safe"], pol["state_policy"][:200])
+    rep.obligation("tables:copy-is-dict-update", pol["copy_dict_update"], "")
+    s["getstate_policy_from_source"] = pol["state_policy"]
+    if not pol["state_safe"] and not concrete:
+        rep.broken("tables:getstate-policy",
+                   "Structure.__getstate__ no longer reads as `every field of the inheritance chain that is present in __dict__, "
+                   "with its stored value` (Gen/CopySites.v: %s); no unequal unpickled copy was found on any generated input" % pol["state_policy"],
+                   {"policy": pol["state_policy"]})
     if not pol["readable"] and not concrete:
         rep.broken("tables:copy-policy-readable",
                    "harness/genmods/copy_sites.py no longer recognises the shape of Structure.__deepcopy__ or of a wrapper's "
@@ -1453,7 +1474,7 @@ def run(rep, tier):
             rep.obligation("spec-on-observed:C11_hash_char", not pout["p_spec_fail_canonical"],
                            "%d canonical pairs, %d observed equal with different hash" % (
                                len(pout["p_canonical"]), len(pout["p_spec_fail_canonical"])))
-            allbad = cout["c_mismatch"]
+            allbad = cout["c_mismatch_gen"]
             # a copy on which a clause of the property fails (reported above) is not a modelling error
             bad = [b for b in allbad if (cflat[b][1], cflat[b][2]) not in cflat[b][0]["flagged"]]
             rep.obligation("correspondence:copy/deepcopy/pickle", not bad,
